@@ -169,7 +169,12 @@ def script_case(idx, payload):
         open(tplp, "w").write(streams.TPL_MIN)
         api_top = [''] + topp
         if which == "pybind":
-            cmd = [sys.executable, os.path.join(REPO, "scripts", "pybind_wrap.py"), "--src", stem + ".i", "--module_name", "modx",
+            # main-module mode: further entries of --src only NAME sub-modules (existing files, files that do not exist yet, paths with
+            # glob metacharacters): the library takes their stems and never opens them
+            extra = [] if sub else rng.choice([[], [], ["later_part.i"], ["parts[v2]/beta.i", "gen/*.i"], ["sub one.i"]])
+            extra_stems = [os.path.splitext(os.path.basename(x))[0] for x in extra]
+            res["opts"]["more_sources"] = extra
+            cmd = [sys.executable, os.path.join(REPO, "scripts", "pybind_wrap.py"), "--src", ";".join([stem + ".i"] + extra), "--module_name", "modx",
                    "--out", "out.cpp", "--template", "t.tpl", "--top_module_namespaces", spelling]
             if boost:
                 cmd.append("--use-boost-serialization")
@@ -178,7 +183,7 @@ def script_case(idx, payload):
             if ignore is not None:
                 cmd += ["--ignore"] + ignore
             r = subprocess.run(cmd, cwd=d, capture_output=True, text=True, timeout=120, env=dict(os.environ, PYTHONPATH=REPO))
-            api = impl_pybind(text, streams.TPL_MIN, stem if sub else "modx", api_top, boost, ignore or [], None if sub else [])
+            api = impl_pybind(text, streams.TPL_MIN, stem if sub else "modx", api_top, boost, ignore or [], None if sub else extra_stems)
             outp = os.path.join(d, stem + ".cpp" if sub else "out.cpp")
             got = open(outp, encoding="utf-8").read() if os.path.exists(outp) else None
             if api[0] == "ok":
@@ -228,7 +233,9 @@ def driver_case(idx, payload):
     d = tempfile.mkdtemp(prefix="verif_c16d_")
     cwd = os.getcwd()
     try:
-        paths = [os.path.join(d, "robot.i")] + [os.path.join(d, st + ".i") for st in stems]
+        # the main file is the FIRST of the list whatever the files are called: sometimes an additional file has the module's name
+        modname, mainstem = ("robot", "robot") if rng.random() < 0.6 else (stems[rng.randrange(nsub)], "core")
+        paths = [os.path.join(d, mainstem + ".i")] + [os.path.join(d, st + ".i") for st in stems]
         for pth, t in zip(paths, texts):
             open(pth, "w", encoding="utf-8").write(t)
         sources = list(paths)
@@ -238,9 +245,9 @@ def driver_case(idx, payload):
             os.makedirs(od)
             os.chdir(od)
             try:
-                w = PybindWrapper(module_name="robot", top_module_namespaces=[''], use_boost_serialization=False, ignore_classes=[],
+                w = PybindWrapper(module_name=modname, top_module_namespaces=[''], use_boost_serialization=False, ignore_classes=[],
                                   module_template=streams.TPL_MIN)
-                w.wrap(sources, "robot.cpp")
+                w.wrap(sources, "main_out.cpp")
                 for sp in sources[1:]:
                     w.wrap_submodule(sp)
             except Exception as e:  # noqa
@@ -260,7 +267,12 @@ def driver_case(idx, payload):
             res["bad"] = dict(kind="spec", what="two identical runs of the build driver produce different files", input=texts[0],
                               first=sorted(runs[0]), second=sorted(runs[1]))
             return res
-        main = runs[0].get("robot.cpp", "")
+        main = runs[0].get("main_out.cpp", "")
+        want_main = impl_pybind(texts[0], streams.TPL_MIN, modname, [''], False, [], stems)
+        if want_main[0] == "ok" and main != want_main[1]:
+            res["bad"] = dict(kind="spec", what="the main unit written by wrap(sources) is not wrap_file of the FIRST file's text with the other files as sub-modules "
+                              "(module %s, files %s)" % (modname, [os.path.basename(x) for x in paths]), input=texts[0], **streams.first_diff(want_main[1], main))
+            return res
         for st in stems:
             part = runs[0].get(st + ".cpp")
             if "void %s(py::module_ &);" % st not in main or "%s(m_);" % st not in main or part is None or \
